@@ -532,6 +532,13 @@ class DEVSSimulator(Simulator[TIME], Generic[TIME]):
         # this check HAS to be done before clearing the eventlist
         if self.is_starting_or_running():
             raise DSOLError("cannot initialize a running simulation")
+        if not isinstance(model, ModelInterface):
+            raise DSOLError(f"model {model} not valid")
+        if not hasattr(model, '_simulator'):
+            raise DSOLError(f"model {model} does not have a simulator. " + 
+                "Did you call super.__init__(...) in the model constructor?")
+        if not isinstance(replication, ReplicationInterface):
+            raise DSOLError(f"replication {replication} not valid")
         self._eventlist.clear()
         super().initialize(model, replication)
         # schedule warmup BEFORE events at warmup time
